@@ -16,6 +16,7 @@ type famInfo struct {
 	cmp  [][]int        // Compare(a,b) in {-1,0,1}; 2 = error / panic
 	eq   [][]bool
 	hash []bool
+	sortOnly bool // long lists: only the sorting pieces are generated
 }
 
 func cmp3(a, b object.Object) (r int) {
@@ -159,6 +160,9 @@ func (fi *famInfo) pieceExprs(items []int) [nPieces]string {
 		p[pSetLit] = `"E:no-literal: {} is a map"`
 	}
 	p[pList] = "G(func() { l := " + l + "; return [len(l), elems2(l), ins(l), hass(l), bool(l), !!l] })"
+	if fi.sortOnly {
+		p[pSetFn], p[pSetLit], p[pList] = `"E:skipped: long list"`, `"E:skipped: long list"`, `"E:skipped: long list"`
+	}
 	return p
 }
 
